@@ -77,15 +77,16 @@ def alpha_call(trusted, offered, outcome):
     if t is None or n is None:
         return None
     entries, na, nj = alpha_entries(offered, ki) if n["wf"] == "ok" else ([], 0, 0)
-    if len(ki.idx) > NK or nj > NJ:
+    from .traces_verify import LIMITS
+    if len(ki.idx) > LIMITS["NK"] or nj > LIMITS["NJ"]:
         return None
     return {"api": "verify_root", "t": t, "n": n, "entries": entries, "outcome": lib.family(outcome)}
 
 
-def judge(run, traces, conc, owner, label):
+def judge(run, traces, conc, owner, label, cfg="Trace_Root.cfg"):
     if not traces:
         return
-    seen = validate(run, traces, cfg="Trace_Root.cfg", module="Trace_Root")
+    seen = validate(run, traces, cfg=cfg, module="Trace_Root")
     for t in traces:
         rejected = False
         for i, ev in enumerate(t["events"], 1):
@@ -190,3 +191,55 @@ def random_pairs(run, n, owner):
             traces.append({"id": tid, "events": [ev]})
             conc[tid] = [{"trusted": trusted, "offered": offered, "observed": out, "exc": exc}]
     judge(run, traces, conc, owner, "random-pair")
+
+
+def big_pairs(run, n, owner):
+    """Scale: root rules with up to 120 keys and thresholds up to the number of keys, hundreds of foreign entries;
+    signer sets exactly at and just below both thresholds.  Judged by Trace_Root.tla with NK = 160."""
+    from . import traces_verify
+    fn = lib.cct("authentication").verify_root
+    keys = gamma.Keys(150, run.seed, offset=2000)
+    r = random.Random(run.seed * 59 + 31)
+    traces, conc = [], {}
+    traces_verify.LIMITS.update(traces_verify.BIG)
+    try:
+        for tid in range(1, n + 1):
+            nt, nn = r.choice([3, 40, 64, 65, 120]), r.choice([3, 40, 64, 65, 120])
+            pool = list(range(1, 151))
+            tk = r.sample(pool, nt)
+            nk_ = (r.sample(tk, min(len(tk), nn // 2)) + r.sample([k for k in pool if k not in tk], nn - min(len(tk), nn // 2)))
+            tt, tn = r.choice([1, nt // 2 + 1, nt]), r.choice([1, nn // 2 + 1, nn])
+            tv = r.choice([1, 7, 2 ** 40])
+            tdoc = metadata.delegating_doc("root", tv, {"root": metadata.rule([keys.pub[k] for k in tk], tt), "key_mgr": metadata.rule([keys.pub[1]], 1)}, r)
+            ndoc = metadata.delegating_doc("root", tv + 1, {"root": metadata.rule([keys.pub[k] for k in nk_], tn), "key_mgr": metadata.rule([keys.pub[2]], 1)}, r)
+            Pb = twin_canon(ndoc)
+            for short_old, short_new in ((0, 0), (1, 0), (0, 1)):
+                need_old = set(r.sample(tk, max(0, tt - short_old)))
+                need_new = set(r.sample(nk_, max(0, tn - short_new)))
+                # signers: exactly the needed ones, removing overlap effects by recomputing what the spec will compute anyway
+                signers = need_old | need_new
+                if short_old:
+                    signers -= set(list((signers & set(tk)))[: max(0, len(signers & set(tk)) - (tt - 1))])
+                if short_new:
+                    signers -= set(list((signers & set(nk_)))[: max(0, len(signers & set(nk_)) - (tn - 1))])
+                sigs = {}
+                for k in signers:
+                    h = r.choice(gamma.HEADERS)
+                    sigs[keys.pub[k]] = {"other_headers": h.hex(), "signature": keys.sign(k, crypto.gpg_digest(Pb, h)).hex()}
+                for j in range(r.choice([0, 50, 300])):
+                    sigs["%064x" % (j + 1)] = {"signature": "0" * 128}        # foreign, well-formed entries under unknown keys
+                items = list(sigs.items())
+                r.shuffle(items)
+                offered = {"signatures": dict(items), "signed": ndoc}
+                trusted = {"signatures": {}, "signed": tdoc}
+                out, exc, _ = lib.call(fn, copy.deepcopy(trusted), copy.deepcopy(offered))
+                run.evaluations += 1
+                ev = alpha_call(trusted, offered, out)
+                if ev and len(ev["entries"]) <= 460:
+                    traces.append({"id": len(traces) + 1, "events": [ev]})
+                    conc[len(traces)] = [{"note": f"trusted rule {tt} of {nt}, offered rule {tn} of {nn}, {len(signers)} signers, {len(sigs)} entries", "observed": out, "exc": exc}]
+    finally:
+        traces_verify.LIMITS.update({"NK": traces_verify.NK, "NA": traces_verify.NA, "NJ": traces_verify.NJ})
+    # foreign hex keys get key indices too: keep within NK = 160 by dropping traces that exceed it (alpha_call already did)
+    judge(run, traces, conc, owner, "large-root-pair", cfg="Trace_Root_big.cfg")
+    run.extra["big_root_pairs"] = len(traces)
